@@ -15,6 +15,7 @@ TRUSTED = {
     "be/le": "int.from_bytes: 0 <= v < 256**len; inverse of to_bytes; concat law; 1-byte and empty cases",
     "tobe/tole": "int.to_bytes(n): length n; inverse of from_bytes on [0,256**n); bytes are 0..255",
     "ipow": "b**e for e>=0: b**0=1, b**(e+1)=b*b**e, positivity/monotonicity for b>=2",
+    "idiv/imod": "a // b and a % b for b > 0: a == b*(a//b) + a%b, 0 <= a%b < b",
     "bitlen": "int.bit_length: x=0 -> 0; x>0 -> 2**(bl-1) <= x < 2**bl",
     "hash": "sha256/sha512/ripemd160/hmac-sha512 are uninterpreted; only the digest length is assumed",
     "bjoin": "b''.join: join([])=b'', join(xs+[x])=join(xs)+x, join([x])=x",
@@ -164,6 +165,13 @@ class Axioms:
                 out.append(z3.Implies(n >= 0, z3.Length(t) == n))
                 out.append(z3.Implies(ok, f(t) == x))
                 out.append(z3.Implies(z3.And(ok, n == 1), t == z3.Unit(x)))
+                nv = z3.simplify(n)
+                if z3.is_int_value(nv) and 2 <= nv.as_long() <= 8:
+                    k = nv.as_long()
+                    digs = [z3.Unit((x / (256 ** i)) % 256) for i in range(k)]
+                    if name == "tobe":
+                        digs = list(reversed(digs))
+                    out.append(z3.Implies(ok, t == z3.Concat(*digs)))
                 # leading / trailing byte facts used by DER and scriptnum minimality
                 if name == "tobe":
                     out.append(z3.Implies(z3.And(ok, n >= 1),
@@ -182,6 +190,11 @@ class Axioms:
                 out.append(z3.Implies(e >= 1, t == b * sym.F_pow(b, e - 1)))
                 out.append(z3.Implies(z3.And(b >= 1, e >= 0), t >= 1))
                 out.append(z3.Implies(z3.And(b >= 2, e >= 1), t >= b))
+                if z3.is_int_value(b) and 2 <= b.as_long() <= 256:
+                    bv = b.as_long()
+                    for K in (1, 2, 4, 8, 16, 31, 32, 33, 40, 63, 64, 128, 255, 256, 264, 512):
+                        out.append(z3.Implies(e >= K, t >= bv ** K))
+                        out.append(z3.Implies(z3.And(e >= 0, e <= K), t <= bv ** K))
                 # monotonicity against the other powers of the same base seen so far
                 key = str(b)
                 others = self.pows.setdefault(key, [])
@@ -190,6 +203,14 @@ class Axioms:
                     out.append(z3.Implies(z3.And(b >= 1, e >= 0, e2 >= 0, e2 < e), b * t2 <= t))
                     out.append(z3.Implies(e == e2, t == t2))
                 others.append((e, t))
+            elif name in ("idiv", "imod"):
+                self.used.add("idiv/imod")
+                a, b = ch
+                q, r = sym.F_idiv(a, b), sym.F_imod(a, b)
+                out.append(z3.Implies(b > 0, z3.And(a == b * q + r, r >= 0, r < b)))
+                out.append(z3.Implies(z3.And(b > 0, a >= 0), z3.And(q >= 0, q <= a)))
+                out.append(z3.Implies(z3.And(b > 0, a >= 0, a < b), z3.And(q == 0, r == a)))
+                out.append(z3.Implies(b == 1, z3.And(q == a, r == 0)))
             elif name == "bitlen":
                 self.used.add("bitlen")
                 x = ch[0]
